@@ -1,6 +1,8 @@
 import Qentem.Proofs.BigIntPred
 import Qentem.Proofs.BigIntDiv
 import Qentem.Proofs.BigIntHelpers
+import Qentem.Proofs.BigIntShl
+import Qentem.Proofs.BigIntScan
 /-! C19 — BigInt holds the exact mathematical integer after every operation that fits.
 
 `Inv W s` (Proofs/BigIntBasic) is the representation invariant: n ≥ 1 words below 2^W, the words above
@@ -36,15 +38,11 @@ def GoodCfg (c : Cfg) : Prop := 0 < c.W ∧ (c.hand = true → c.W % 2 = 0)
 def C19_full : Prop := ∀ c : Cfg, GoodCfg c → ∀ op : Op, StepExact c op
 
 /-- The operations covered by the proved step theorem: operands of `=`, `+=`, `-=`, `|=`, `&=` and the
-target of the narrowing conversion are at most one word wide. Open: operands wider than a word,
-`<<=`, `>>=`, `FindFirstBit`. -/
+target of the narrowing conversion are at most one word wide. Open: operands wider than a word. -/
 def Covered (W : Nat) : Op → Prop
   | .assign K _ => K ≤ W
   | .bop _ K _ => K ≤ W
   | .narrow K => K ≤ W
-  | .shl _ => False
-  | .shr _ => False
-  | .ffb => False
   | _ => True
 
 theorem pow_comm' (W n : Nat) : 2 ^ (n * W) = 2 ^ (W * n) := by rw [Nat.mul_comm]
@@ -125,9 +123,28 @@ theorem step_exact_partial (c : Cfg) (hm : MulOK c) (hd : DivOK c) (op : Op) (hc
       refine ⟨s', ?_, hinv, hl, hdm.1.symm⟩
       simp [step, hrun, bind, Except.bind, pure, Except.pure, hdm.2]
     · exact absurd hspec (by simp)
-  | shl k => exact absurd hc (by simp [Covered])
-  | shr k => exact absurd hc (by simp [Covered])
-  | ffb => exact absurd hc (by simp [Covered])
+  | shl k =>
+    simp only [specStep] at hspec
+    split at hspec
+    · rename_i hfit
+      simp only [Option.some.injEq, Prod.mk.injEq] at hspec
+      obtain ⟨rfl, rfl⟩ := hspec
+      obtain ⟨s', hrun, hinv, hl, hv⟩ := shiftLeft_spec s k h (by rw [← pow_comm']; exact hfit)
+      exact ⟨s', by simp [step, hrun, bind, Except.bind, pure, Except.pure], hinv, hl, hv⟩
+    · exact absurd hspec (by simp)
+  | shr k =>
+    simp only [specStep, Option.some.injEq, Prod.mk.injEq] at hspec
+    obtain ⟨rfl, rfl⟩ := hspec
+    obtain ⟨s', hrun, hinv, hl, hv⟩ := shiftRight_spec s k h
+    exact ⟨s', by simp [step, hrun, bind, Except.bind, pure, Except.pure], hinv, hl, hv⟩
+  | ffb =>
+    simp only [specStep] at hspec
+    split at hspec
+    · rename_i hx
+      simp only [Option.some.injEq, Prod.mk.injEq] at hspec
+      obtain ⟨rfl, rfl⟩ := hspec
+      exact ⟨s, by simp [step, findFirstBit_spec s h hx, bind, Except.bind, pure, Except.pure], h, rfl, rfl⟩
+    · exact absurd hspec (by simp)
   | cmp rel x =>
     simp only [specStep] at hspec
     split at hspec
